@@ -68,6 +68,7 @@ type c09Case struct {
 	Count  int       `json:"batch_count"`
 	Items  []c09Item `json:"items"`
 	Parent int       `json:"parent_ctx"` // 0 background, 1 background + unrelated value
+	Order  int       `json:"batch_order,omitempty"` // header Batch Order Option: 0 absent, 1 true, 2 false (no bearing on how this server executes a batch)
 }
 
 // ---------------------------------------------------------------- scripted handlers
@@ -311,6 +312,10 @@ func c09Message(cs *c09Case, r *c09Runner) *kmip.RequestMessage {
 		BatchErrorContinuationOption: kmip.BatchErrorContinuationOption(cs.Opt),
 		BatchCount:                   int32(cs.Count),
 	}}
+	if cs.Order != 0 {
+		o := cs.Order == 1
+		msg.Header.BatchOrderOption = &o
+	}
 	for i := range cs.Items {
 		it := &cs.Items[i]
 		bi := kmip.RequestBatchItem{Operation: kmip.Operation(it.Op)}
@@ -1031,6 +1036,9 @@ func c09RandCase(r *h.Rand) c09Case {
 	}
 	for i := 0; i < n; i++ {
 		cs.Items = append(cs.Items, c09RandItem(r, i, cs.Routes))
+	}
+	if r.Chance(1, 3) {
+		cs.Order = 1 + r.Intn(2)
 	}
 	cs.Ver = cs.Sup[r.Intn(len(cs.Sup))]
 	switch r.Intn(12) {
